@@ -198,9 +198,9 @@ def harness(cfg, B):
         e = side.get(id(r))
         if e is not None:
             k = sum(1 for x in log[:log.index(e)] if id(x['f']) not in snap_ids)
-            B.ob('snapshot-step-forward[%d]' % j, 'le', B.const(0), mn(e['dt']))
+            B.ob('snapshot-step-forward[%d]' % j, 'le', B.const(0), mn(e['dt']), tol=0.0)
             dtk = disc.dts[e['ndts'] - 1]
-            B.ob('snapshot-step-within-one-cfl-step[%d]' % j, 'le', mn(e['dt']), mn(dtk))
+            B.ob('snapshot-step-within-one-cfl-step[%d]' % j, 'le', mn(e['dt']), mn(dtk), tol=0.0)
             B.ob('snapshot-from-trajectory-time[%d]' % j, 'eq', e['t_before'], traj_t[k])
             B.eq_arrays('snapshot-from-trajectory-data[%d]' % j, e['data_before'][0], traj_d[k][0])
             B.ob('snapshot-it[%d]' % j, 'true', B.boolean(r.it == itstart + k), meta={'it': r.it, 'expected': itstart + k})
@@ -236,6 +236,11 @@ def harness(cfg, B):
                 okc = okc | same
             B.ob('stepless-snapshot-is-a-trajectory-state[%d]' % j, 'true', okc)
     B.ob('fallback-only-when-no-snapshot', 'true', B.boolean(not (fallback and R)))
+    if sols:
+        # the last returned field carries the cumulative iteration count at which it was produced (restart resumes from it)
+        last = sols[-1]
+        if last is Qn:
+            B.ob('returned-state-iteration-tag', 'true', B.boolean(last.it == itstart + N), meta={'it': last.it, 'expected': itstart + N})
     # caller's field untouched
     B.ob('caller-time-untouched', 'eq', f0.time, t0)
     B.ob('caller-it-untouched', 'true', B.boolean(f0.it == it0))
